@@ -18,7 +18,18 @@ static int vf_fi_should_fail(void) {
 	}
 	return 0;
 }
-void *vf_fi_malloc(size_t n) { if (vf_fi_should_fail()) return NULL; return malloc(n); }
-void *vf_fi_calloc(size_t a, size_t b) { if (vf_fi_should_fail()) return NULL; return calloc(a, b); }
-void *vf_fi_realloc(void *p, size_t n) { if (vf_fi_should_fail()) return NULL; return realloc(p, n); }
-int vf_fi_posix_memalign(void **p, size_t al, size_t n) { if (vf_fi_should_fail()) return 12; return posix_memalign(p, al, n); }
+static void *vf_fi_count_live(void *p) { return p; }
+void *vf_fi_malloc(size_t n) { if (vf_fi_should_fail()) return NULL; return vf_fi_count_live(malloc(n)); }
+void *vf_fi_calloc(size_t a, size_t b) { if (vf_fi_should_fail()) return NULL; return vf_fi_count_live(calloc(a, b)); }
+void *vf_fi_realloc(void *p, size_t n) {
+	if (vf_fi_should_fail()) return NULL;
+	if (p == NULL) return vf_fi_count_live(realloc(p, n));
+	return realloc(p, n);
+}
+int vf_fi_posix_memalign(void **p, size_t al, size_t n) {
+	if (vf_fi_should_fail()) return 12;
+	int r = posix_memalign(p, al, n);
+	if (r == 0) vf_fi_count_live(*p);
+	return r;
+}
+
